@@ -55,7 +55,9 @@ class SpecBuiltins:
         guards = []
         for n, tn in zip(names, tnodes):
             ty = self.cdb.types.spec_ty(tn, fr.module)
-            c = it.bound("q_" + n, ty.sort())
+            # deterministic names: two evaluations of the same specification text yield identical
+            # quantified formulas (alpha-equivalent copies are hard for the solvers to match)
+            c = z3.Const(f"q_{n}_L{getattr(lam, 'lineno', 0)}c{getattr(lam, 'col_offset', 0)}", ty.sort())
             consts.append(c)
             nfr.env[n] = SV(ty, c)
             if isinstance(ty, TObj):
@@ -127,6 +129,10 @@ class SpecBuiltins:
                 return SV(TBool, it.coerce(a, t).term == it.coerce(b, t).term)
             if isinstance(a.ty, TObj) and isinstance(b.ty, TObj):
                 return SV(TBool, a.term == b.term)
+        if isinstance(a, SV) and isinstance(a.ty, TUnion) and isinstance(b, SV) and not isinstance(b.ty, TUnion):
+            return SV(TBool, a.term == it.coerce(b, a.ty).term)
+        if isinstance(b, SV) and isinstance(b.ty, TUnion) and isinstance(a, SV) and not isinstance(a.ty, TUnion):
+            return SV(TBool, b.term == it.coerce(a, b.ty).term)
         if isinstance(a, SV) and a.ty is TAny:
             return SV(TBool, a.term == it.coerce(b, TAny).term)
         if isinstance(b, SV) and b.ty is TAny:
@@ -314,6 +320,15 @@ class SpecBuiltins:
         if isinstance(b.ty, TOpt) and not isinstance(a.ty, TOpt):
             return SV(TBool, z3.And(z3.Not(b.ty.is_none(b.term)), b.ty.val(b.term) == a.term))
         return SV(TBool, a.term == b.term)
+
+    def s_allocated(self, it, node, fr):
+        """x is an allocated object in the state the enclosing formula is evaluated in."""
+        (a,), fr = self._args(it, node, fr)
+        alive = it.alive
+        if fr.heap_override is not None and ("__alive__", "") in fr.heap_override:
+            alive = fr.heap_override[("__alive__", "")]
+        t = a.term if not isinstance(a.ty, TOpt) else a.ty.val(a.term)
+        return SV(TBool, z3.Select(alive, t))
 
     def s_fresh_in(self, it, node, fr):
         """fresh_in(x): x was not allocated in the pre-state."""
